@@ -302,6 +302,13 @@ pub fn emit(built: &Built, generated: &str) -> String {
     if plan.serde {
         l!("        match self {{");
         for (vi, fields) in variants.iter().enumerate() {
+            if fields.len() > 16 {
+                l!("            R::V{}(r) => {{", vi);
+                l!("                simrt::wide_model!(WideM, WideR, {}, {});", fields.len(), fields.iter().enumerate().map(|(i, f)| format!("f{}: {}", i, f.ty)).collect::<Vec<_>>().join(", "));
+                l!("                enc(fmt, w, &WideR {{ {} }})", fields.iter().enumerate().map(|(i, f)| format!("f{}: r.{}()", i, f.name)).collect::<Vec<_>>().join(", "));
+                l!("            }}");
+                continue;
+            }
             l!("            R::V{}(r) => enc(fmt, w, {}),", vi, tuple_refs(fields));
         }
         l!("        }}");
@@ -323,6 +330,12 @@ pub fn emit(built: &Built, generated: &str) -> String {
             l!("            {} => {{", vi);
             if fields.is_empty() {
                 l!("                let _t: [u8; 0] = dec(fmt, r)?;");
+            } else if fields.len() > 16 {
+                l!("                simrt::wide_model!(WideM, WideR, {}, {});", fields.len(), fields.iter().enumerate().map(|(i, f)| format!("f{}: {}", i, f.ty)).collect::<Vec<_>>().join(", "));
+                l!("                let t: WideM = dec(fmt, r)?;");
+                for (i, f) in fields.iter().enumerate() {
+                    l!("                {{ let o = t.f{}.obs(); simrt::alloc::harness(|| out.push((0, {}, o))); }}", i, f.datum);
+                }
             } else {
                 l!("                let t: ({},) = dec(fmt, r)?;", fields.iter().map(|f| f.ty.clone()).collect::<Vec<_>>().join(", "));
                 for (i, f) in fields.iter().enumerate() {
